@@ -2258,6 +2258,11 @@ func (s *Server) releaseConcurrency() {
 
 var errHijacked = errors.New("connection has been hijacked")
 
+// maxUnreadRequestBodySize is the number of bytes of a streamed request body
+// left unread by the handler that the server discards in order to keep the
+// connection alive; connections with more unread data are closed.
+const maxUnreadRequestBodySize = 256 << 10
+
 // GetCurrentConcurrency returns a number of currently served
 // connections.
 //
@@ -2637,6 +2642,15 @@ func (s *Server) serveConnCounted(c net.Conn, countConcurrency bool) error {
 		// If a client denies a request the handler should not be called
 		if continueReadingRequest {
 			s.Handler(ctx)
+		}
+
+		// If the handler left a part of the streamed request body unread, the rest
+		// of it is still on the connection: it must not be parsed as the next request.
+		// Discard a small remainder so that the connection can be reused, close it otherwise.
+		if rs, ok := ctx.Request.bodyStream.(*requestStream); ok && !rs.drained() {
+			if _, err := io.CopyN(io.Discard, rs, maxUnreadRequestBodySize); err != io.EOF {
+				connectionClose = true
+			}
 		}
 
 		timeoutResponse = ctx.timeoutResponse
